@@ -4,6 +4,7 @@ mod bprops;
 mod engine_b;
 mod c09;
 mod c10;
+mod c13;
 mod front;
 mod stats;
 
@@ -20,6 +21,8 @@ fn main() {
         "C09" => c09::run(replay),
         "C10" => c10::run("C10", replay),
         "C14" => c10::run("C14", replay),
+        "C13" => c13::run_c13(replay),
+        "C15" => c13::run_c15(replay),
         "C01" => bprops::run("C01", replay),
         "C02" => bprops::run("C02", replay),
         "C03" => bprops::run("C03", replay),
